@@ -729,7 +729,7 @@ func (c *pcCtx) forLoop(x *ast.ForStmt, k pgNode) pgNode {
 		again = sub.stmt(x.Post, again)
 	}
 	done := &pgTerm{doneCode}
-	sub.loops = append(append([]pgLoopK{}, c.loops...), pgLoopK{done, again})
+	sub.loops = append(append([]pgLoopK{}, c.loops...), pgLoopK{done, again, ""})
 	sub.inSwch = 0
 	body := sub.stmts(x.Body.List, again)
 	var cpre []string
